@@ -159,14 +159,14 @@ P = {
                 "workers": 4, "timeout": 300, "thorough_timeout": 1500}],
     "gens": [
         {"module": "Gen_EpMgr", "cfg": "Gen_words3.cfg", "thorough_cfg": "Gen_words4.cfg", "workers": 2,
-         "max": 1200, "thorough_max": 30000, "timeout": 300, "thorough_timeout": 1500},
+         "max": 1200, "thorough_max": 20000, "timeout": 300, "thorough_timeout": 1500},
         {"module": "Gen_EpMgr", "cfg": "Gen_sim.cfg", "simulate": {"num": 150, "depth": 20},
-         "thorough_simulate": {"num": 2000, "depth": 20}, "timeout": 300, "thorough_timeout": 900},
+         "thorough_simulate": {"num": 1500, "depth": 20}, "timeout": 300, "thorough_timeout": 900},
     ],
     "driver": {"overlay_pkg": PKG, "run": "^TestVerifMgrEpMgr$", "env": {"VERIF_REPS": "8"}},
     "rerun_env": {"VERIF_REPS": "24"},
     "rerun_envs": [{"VERIF_REPS": "24"}, {"VERIF_REPS": "400"}, {"VERIF_REPS": "2000"}],
-    "n_random": (300, 3000),
+    "n_random": (300, 2500),
     "trace": {"module": "T_EpMgr", "cfg": "T_EpMgr.cfg", "heap": "4g"},
     "chunk": 60000,
     "multi_reject": True,
